@@ -844,6 +844,38 @@ func genCall(r *common.Rng, f *fspec, maxLen int) *call {
 		default:
 			c.s1 = genSeq(r, 3)
 		}
+		if r.Chance(12) {
+			// a pattern that overlaps itself, and a text in which the match begins inside a failed partial
+			// match: (a a b) in (a a a b), (a b a c) in (a b a b a c) (added after seeded change C14-4)
+			i0 := r.Intn(4)
+			i1 := (i0 + 1 + r.Intn(3)) % 4
+			i2 := 0
+			for i2 == i0 || i2 == i1 {
+				i2++
+			}
+			a, b, cc := alphabet[i0], alphabet[i1], alphabet[i2]
+			type ov struct {
+				p     []int
+				shift int
+			}
+			o := common.Pick(r, []ov{{[]int{a, a, b}, 1}, {[]int{a, b, a, cc}, 2}, {[]int{a, a, a, b}, 1}, {[]int{a, b, a, b, cc}, 2}, {[]int{a, a, b, a, a, cc}, 3}})
+			c.s1 = o.p
+			text := []int{}
+			for i := r.Intn(3); i > 0; i-- {
+				text = append(text, common.Pick(r, alphabet))
+			}
+			text = append(text, o.p[:o.shift]...)
+			if r.Chance(30) {
+				text = append(text, o.p[:o.shift]...)
+			}
+			text = append(text, o.p...)
+			for i := r.Intn(3); i > 0; i-- {
+				text = append(text, common.Pick(r, alphabet))
+			}
+			c.s2 = text
+			n2 = len(c.s2)
+			c.start2 = -1
+		}
 		if r.Chance(25) { // some context around the pattern, cut off again by start1/end1
 			pre, post := r.Intn(2), r.Intn(2)
 			full := []int{}
@@ -1066,21 +1098,10 @@ func Run(ctx *common.Ctx) {
 	var terms []string
 	var descs []any
 	distinct := map[string]bool{}
-	for len(terms) < ncalls {
-		x := ctx.Rng.Intn(total)
-		var f *fspec
-		for _, g := range fspecs {
-			if x < g.weight {
-				f = g
-				break
-			}
-			x -= g.weight
-		}
-		c := genCall(ctx.Rng, f, maxLen)
-		forms := []int{asList, asVec, asStr}
-		if f.listOnly {
-			forms = []int{asList}
-		}
+	// one case: the call evaluated on every given representation (and, when frame is set, once more with the
+	// sequences in variables that must be unchanged afterwards)
+	emit := func(c *call, forms []int, frame bool) {
+		f := c.fn
 		if len(c.s1) == 0 || (len(c.s2) == 0 && twoSeq(c)) {
 			forms = append([]int{asNil}, forms...)
 		}
@@ -1095,7 +1116,7 @@ func Run(ctx *common.Ctx) {
 			ctx.Meta.Evaluations++
 		}
 		// a function that is not destructive must leave its arguments alone
-		if !f.destr && f.layout != "assoc" {
+		if frame && !f.destr && f.layout != "assoc" {
 			for _, form := range []int{asList, asVec} {
 				if f.listOnly && form != asList {
 					continue
@@ -1142,8 +1163,97 @@ func Run(ctx *common.Ctx) {
 			ctx.Sample(d)
 		}
 	}
+
+	// ---- exhaustive block (every run, every tier): search and mismatch over the 2-letter alphabet {0,1} ----
+	// search: every pattern of length 2..4 x every text of length 0..7, forward and :from-end, without bounds
+	// and with :start2 / :end2 drawn per case; mismatch: every pair of sequences of length 0..4.  Patterns
+	// that overlap themselves ((0 0 1) in (0 0 0 1)) and every alignment of a failed partial match are in
+	// here by construction (added after seeded change C14-4 was missed by the random patterns).
+	words := func(n int) [][]int {
+		out := make([][]int, 0, 1<<n)
+		for m := 0; m < 1<<n; m++ {
+			w := make([]int, n)
+			for i := range w {
+				w[i] = (m >> i) & 1
+			}
+			out = append(out, w)
+		}
+		return out
+	}
+	var texts, pats, shorts [][]int
+	for n := 0; n <= 7; n++ {
+		texts = append(texts, words(n)...)
+	}
+	for n := 2; n <= 4; n++ {
+		pats = append(pats, words(n)...)
+	}
+	for n := 0; n <= 4; n++ {
+		shorts = append(shorts, words(n)...)
+	}
+	searchF, mismatchF := fspecs[0], fspecs[0]
+	for _, g := range fspecs {
+		switch g.lisp {
+		case "search":
+			searchF = g
+		case "mismatch":
+			mismatchF = g
+		}
+	}
+	exh := 0
+	two := func(f *fspec, a, b [][]int) {
+		for _, s1 := range a {
+			for _, s2 := range b {
+				for _, fe := range []bool{false, true} {
+					for _, bounded := range []bool{false, true} {
+						c := &call{fn: f, start: -1, end: -1, start2: -1, end2: -1, op: "BAdd", nseq: 1,
+							predT: "TEql", test: "TEql", truth: "TrT", s1: s1, s2: s2, fromEnd: fe}
+						if bounded {
+							c.start2 = ctx.Rng.Intn(len(s2) + 1)
+							if ctx.Rng.Chance(60) {
+								c.end2 = c.start2 + ctx.Rng.Intn(len(s2)-c.start2+1)
+							}
+							if f == mismatchF && ctx.Rng.Chance(50) {
+								c.start = ctx.Rng.Intn(len(s1) + 1)
+							}
+						}
+						switch exh % 6 { // the comparison is the default one, an explicit test, or on keys
+						case 1:
+							c.tkind, c.test = testTest, "TEq"
+						case 3:
+							c.key = "KSucc"
+						case 5:
+							c.tkind, c.test = testNot, "TNe"
+						}
+						exh++
+						emit(c, []int{asList, asStr}, false)
+						ctx.Hist("exhaustive:" + f.lisp)
+					}
+				}
+			}
+		}
+	}
+	two(searchF, pats, texts)
+	two(mismatchF, shorts, shorts)
+
+	for len(terms) < ncalls+exh {
+		x := ctx.Rng.Intn(total)
+		var f *fspec
+		for _, g := range fspecs {
+			if x < g.weight {
+				f = g
+				break
+			}
+			x -= g.weight
+		}
+		c := genCall(ctx.Rng, f, maxLen)
+		forms := []int{asList, asVec, asStr}
+		if f.listOnly {
+			forms = []int{asList}
+		}
+		emit(c, forms, true)
+	}
 	ctx.Meta.DistinctNontrivial = len(distinct)
-	ctx.Meta.Rule = "random calls of 52 sequence functions (find position count remove delete substitute nsubstitute and -if / -if-not, remove-/delete-duplicates, member assoc rassoc and -if, search mismatch, subseq replace fill reverse nreverse, sort stable-sort merge, union intersection set-difference subsetp, every some notany notevery, map mapcar reduce concatenate): elements from the 4-symbol alphabet {-1,0,1,2} (6%: one two-byte character; for abs/square keys often both -1 and 1), length 0..8 biased to 0 and 1 (sort: 30% of length 13..32), item / predicate constant mostly drawn from the sequence, :start/:end (:start2/:end2) in range with every boundary value, :end nil, :key from {- abs 1+ square}, :test/:test-not from {eql = < > <= >= /=}, half of the calls with tests / predicates / sort predicates answering a generalized boolean other than t (7, an argument, a string, a list, 0, string< on one-character strings), :count -1..len+1 or nil, :from-end t/nil, :initial-value; search patterns cut from the searched sequence, mismatch partners by point changes and cuts, merge arguments pre-sorted; every call is evaluated as Lisp text on the same elements as a list, as nil where a sequence is empty, as a vector and as a string (characters 100+e; tests become char tests, keys decode the character); non-destructive calls are repeated with the sequences in variables which must be unchanged afterwards; distinct = distinct calls with at least one keyword"
+	ctx.Meta.Rule = "an exhaustive block in every run: search with every pattern of length 2..4 x every text of length 0..7 over the alphabet {0,1}, and mismatch with every pair of sequences of length 0..4, each forward and :from-end, without bounds and with :start2/:end2 (mismatch: also :start1) drawn per case, comparison by default / :test = / :key 1+ / :test-not /= in rotation, on lists and strings (32404 calls: every self-overlapping pattern and every alignment of a failed partial match occurs); then random calls of 52 sequence functions (find position count remove delete substitute nsubstitute and -if / -if-not, remove-/delete-duplicates, member assoc rassoc and -if, search mismatch, subseq replace fill reverse nreverse, sort stable-sort merge, union intersection set-difference subsetp, every some notany notevery, map mapcar reduce concatenate): elements from the 4-symbol alphabet {-1,0,1,2} (6%: one two-byte character; for abs/square keys often both -1 and 1), length 0..8 biased to 0 and 1 (sort: 30% of length 13..32), item / predicate constant mostly drawn from the sequence, :start/:end (:start2/:end2) in range with every boundary value, :end nil, :key from {- abs 1+ square}, :test/:test-not from {eql = < > <= >= /=}, half of the calls with tests / predicates / sort predicates answering a generalized boolean other than t (7, an argument, a string, a list, 0, string< on one-character strings), :count -1..len+1 or nil, :from-end t/nil, :initial-value; search patterns cut from the searched sequence (12%: a self-overlapping pattern whose match starts inside a failed partial match), mismatch partners by point changes and cuts, merge arguments pre-sorted; every call is evaluated as Lisp text on the same elements as a list, as nil where a sequence is empty, as a vector and as a string (characters 100+e; tests become char tests, keys decode the character); non-destructive calls are repeated with the sequences in variables which must be unchanged afterwards; distinct = distinct calls with at least one keyword"
 	header := "From C14 Require Import Base Model Spec Corr.\nOpen Scope Z_scope.\n"
 	footer := "Definition res := Eval vm_compute in check_all cases.\nPrint res.\nDefinition gcount := Eval vm_compute in guard_count cases.\nPrint gcount.\nDefinition specmiss := Eval vm_compute in spec_misses cases.\nPrint specmiss.\n"
 	ctx.WriteShards("cases", header, "case", footer, terms, descs, 16)
